@@ -269,6 +269,18 @@ class Ctx:
                                     broken=broken or [], count=1))
 
 
+def is_known(ctx, v, known=None):
+    known = known if known is not None else [k for k in load_known() if k["property"] == ctx.prop]
+    return any(v["kind"] == "concrete" and k["site"] == v["site"] and k["failure_class"] == v["failure_class"] for k in known)
+
+
+def unlisted_violations(ctx):
+    """violations recorded so far that are NOT covered by a known-findings entry (only these count as
+    'a concrete failing input was found' for the verdict logic — a listed finding must not mask a broken tie)"""
+    known = [k for k in load_known() if k["property"] == ctx.prop]
+    return [v for v in ctx.violations if not is_known(ctx, v, known)]
+
+
 def load_known():
     """known findings: /verif/known_findings.json plus per-property files /verif/known_findings/*.json"""
     import glob
